@@ -20,11 +20,17 @@ type GenOpt struct {
 	Irrelevant  bool // randomise audience / meta / nonce / cause / iat / decoded
 	Args        bool // draw an argument map
 	NoAudience  bool
+	MixedAlgs   bool // principals of every key algorithm (signatures then differ between two builds of the same case)
 }
+
+var mixedAlgs bool
 
 var CmdSegs = []string{"foo", "foobar", "fo", "bar", "a", "ab", "é", "λόγος", "λόγοσ", "σ", "ς"}
 
 func drawPrin(t *rapid.T, label string) int {
+	if mixedAlgs {
+		return rapid.IntRange(0, NPrincipalsMixed-1).Draw(t, label)
+	}
 	return rapid.IntRange(0, NPrincipals-1).Draw(t, label)
 }
 
@@ -163,6 +169,8 @@ func DrawConforming(t *rapid.T, o GenOpt) Case {
 	if o.MaxLen == 0 {
 		o.MaxLen = 6
 	}
+	mixedAlgs = o.MixedAlgs
+	defer func() { mixedAlgs = false }()
 	n := rapid.IntRange(1, o.MaxLen).Draw(t, "len")
 	subj := drawPrin(t, "subject")
 	var c Case
